@@ -304,8 +304,10 @@ cmd('custom', params={'command': 'Str', 'arg': 'Opt[Bytes]'}, props=['C07'],
 klass('IO', fields={'socket': 'Any'})
 contract('Server._encrypt_session', module=M, props=['C08', 'C14'],
          params={'self': 'Server'}, returns='Bool',
-         requires=S_OK + ['in_timeout_scope()', 'self.context != None'],
-         raises={'OSError': [], 'Timeout': []},
+         # the handshake waits for the peer: it runs under its own Timeout(self.command_timeout) scope (G4), and a
+         # handshake that does not finish in time is reported like a failed one
+         requires=S_OK + ['self.context != None'],
+         raises={'OSError': []},
          ensures=['implies(result, self.io.encrypted)', 'len(self.io.sent) == old(len(self.io.sent))',
                   'implies(result, self.io.recv_buffer == b"")',
                   'implies(not result, ' + NOCB + ')', TRACE_PREFIX, 'len(self.trace) <= old(len(self.trace)) + 2',
